@@ -15,7 +15,7 @@ class C02(ProgramProperty):
             "unknown prefix; identifiers '', containing the delimiter, '/', '#', space, non-ASCII, lone surrogate) "
             "each queried through expand, expand_pair, expand_reference, expand_all, expand_pair_all, is_curie, "
             "parse_curie, plus malformed CURIE strings. Non-trivial = some pair uses a synonym or the empty "
-            "prefix, or an identifier containing the delimiter. 35 % of the converters are built through a history (part of the records, queries, then new records and merges that add synonyms, optionally a rejected call); 30 % live on and receive a late record whose names include one containing the delimiter, after which every name of that record is queried.")
+            "prefix, or an identifier containing the delimiter. 35 % of the converters are built through a history (part of the records, queries, then new records and merges that add synonyms, optionally a rejected call); 30 % live on and receive a late record whose names include one containing the delimiter, after which every name of that record is queried. Three pairs per case are also expanded with strict=True, passthrough=True and both together through expand / expand_pair / expand_reference; converters come with decoys, bystanders, copies and clashing collections offered to the constructor (gen.build_steps).")
     assumptions = ["prefixes that violate DelimOK although they do not contain the delimiter are known finding K2"]
 
     def exhaustive(self, tier):
@@ -60,6 +60,11 @@ class C02(ProgramProperty):
                       q(0, "parse_curie", s), q(0, "standardize_prefix", p)]
         for s in gen.curie_probes(rng, recs, delim, 3):
             steps += [q(0, "expand", s), q(0, "expand_all", s), q(0, "is_curie", s)]
+        for p, i in pairs[:3]:
+            # every flag combination of the three expansion entry points must tell the same story about the prefix
+            s = p + delim + i
+            for fl in ({"s": True}, {"p": True}, {"s": True, "p": True}):
+                steps += [q(0, "expand", s, **fl), q(0, "expand_pair", p, i, **fl), q(0, "expand_reference", p, i, **fl)]
         tags = [f"delim={delim!r}"]
         for p, i in pairs:
             tags.append("prefix=" + ("empty" if p == "" and p in ps else "canonical" if p in canon else
